@@ -75,7 +75,8 @@ def createOutsidePackageClass (safe : Bool) (classPath : String) (created : List
     else
       let pyPath := joinWith "." pathPartsL
       let camel := convertName pyPath safe
-      let header := (if pyPath != camel then "@PythonModule(\"" ++ pyPath ++ "\")\n" else "") ++ "package " ++ camel ++ "\n"
+      let header := (if pyPath != camel then "@PythonModule(\"" ++ pyPath ++ "\")\n" else "")
+        ++ "package " ++ escapePath camel ++ "\n"
       .ok ({ path := file, mode := .write, text := header ++ outsideClassText className safe }, created')
 
 def outsideWrites (safe : Bool) : List String → List String → List String → Except PyErr (List WriteOp)
